@@ -76,7 +76,10 @@ func classify(s *Spec, t *Taint, inMark bool) {
 		U(0)
 		U(1)
 		U(2)
-	case "new", "wrap", "withmsg", "wrapferr", "newfwerr", "wrapfgosyntax", "handledmsgf0", "stleaf", "stwrap":
+	case "safedetailsnofmt":
+		U(0)
+		Sf(1)
+	case "new", "newf0", "assertf0", "wrapf0", "withmsgf0", "wrap", "withmsg", "wrapferr", "newfwerr", "wrapfgosyntax", "handledmsgf0", "stleaf", "stwrap":
 		Sf(0)
 	case "newf", "assertf", "wrapf", "withmsgf", "safedetails", "assertwrap", "newfw", "newfwsuffix", "handledmsgf", "handledsafemsg":
 		Sf(0)
